@@ -728,9 +728,13 @@ impl<'s> Runner<'s> {
                 if plen < prog.min_pkt {
                     return None;
                 }
-                let expected = ((self.sc.packets[pkt][idx] as u64) << 8) | prog.tag as u64;
+                let mut word = 0u64;
+                for k in (0..prog.w as usize).rev() {
+                    word = (word << 8) | self.sc.packets[pkt][idx + k] as u64;
+                }
+                let expected = (word << 8) | prog.tag as u64;
                 if let Some(v) = r0 {
-                    if v & 0xff != prog.tag as u64 || v >> 16 != 0 {
+                    if v & 0xff != prog.tag as u64 || (prog.w < 8 && v >> (8 + 8 * prog.w as u32) != 0) {
                         return None; // not the value shape of this probe: another program ran
                     }
                 }
@@ -740,7 +744,7 @@ impl<'s> Runner<'s> {
                 self.counters.inc("c09_pkt_checks");
                 match r0 {
                     Some(v) if v == expected => {}
-                    Some(v) => return self.c09(format!("packet-load-base/{}", engine.name()), at, format!("{}: {} of packet byte {} returned {:#x}, expected {:#x}", who, if prog.class == Class::ProbePktAbs { "ldabsb" } else { "ldindb" }, idx, v, expected)),
+                    Some(v) => return self.c09(format!("packet-load-base/{}", engine.name()), at, format!("{}: {}-byte {} at packet offset {} returned {:#x}, expected {:#x}", who, prog.w, if prog.class == Class::ProbePktAbs { "ldabs" } else { "ldind" }, idx, v, expected)),
                     None => return self.c09(format!("packet-load-base/{}", engine.name()), at, format!("{}: packet load of byte {} (packet length {}) -> {}", who, idx, plen, obs.outcome.short())),
                 }
             }
